@@ -324,7 +324,8 @@ def handle (j : Json) : M Json := do
       pure (Json.mkObj [("prios", Json.arr ((Lex.defaultPrios t).map (fun (i, p) => Json.arr #[Json.str i, ofInt p])).toArray)])
   | "objective" => do
       let d ← parseInts (← fld j "dpv"); let u ← parseInts (← fld j "user")
-      pure (Json.mkObj [("w", intsJ (Lex.objective d u))])
+      -- "w": the model that mirrors the code's plumbing; "spec": the key form that theorem C14.configurator_objective_lex is about
+      pure (Json.mkObj [("w", intsJ (Lex.objective d u)), ("spec", intsJ (Prio.shadowSpec [d, u]))])
   | "cert_dominates" => do
       let levs ← parseInts (← fld j "levels"); let ws ← parseInts (← fld j "w")
       if levs.length != ws.length then throw "levels/w length mismatch"
